@@ -116,13 +116,17 @@ def run(ctx) -> None:
         n_points += 1
         ctx.check("R2", ok, f"{rw}: diff and iter_rewritten iterate rewrite.iter_path_patterns_items(file_patterns)", f"{rw}: diff and write path iterate different file sets", f"{a} vs {b}", loc=d.loc(ld))
         # (2) open keywords
-        od = [s.node for s in effects.sites[d.fq] if s.detail.get("via") == "open"]
-        oi = [s.node for s in effects.sites[it.fq] if s.detail.get("via") == "open"]
-        ctx.require(len(od) == 1 and len(oi) == 1, f"{rw}: expected one read-open on each path")
+        od = shapes.open_sites_through_helpers(prog, effects, d)
+        oi = shapes.open_sites_through_helpers(prog, effects, it)
+        ctx.require(len(od) >= 1 and len(oi) >= 1, f"{rw}: no read-open found on the diff or write path")
+        kd = {tuple(sorted(k.items())) for _c, _o, _p, k in od}
+        ki = {tuple(sorted(k.items())) for _c, _o, _p, k in oi}
+        pd_ = {unparse(p) for _c, _o, p, _k in od}
+        pi_ = {unparse(p) for _c, _o, p, _k in oi}
         n_points += 1
-        ctx.check("R2", _open_kwargs(od[0]) == _open_kwargs(oi[0]) and unparse(od[0].func.value) == unparse(ld.target.elts[0]) and unparse(oi[0].func.value) == unparse(li.target.elts[0]),
-                  f"{rw}: both paths read the iterated file with {_open_kwargs(oi[0])}", f"{rw}: diff path and write path open files differently",
-                  f"diff: {unparse(od[0])}; write: {unparse(oi[0])}", loc=d.loc(od[0]))
+        ctx.check("R2", kd == ki and pd_ == {unparse(ld.target.elts[0])} and pi_ == {unparse(li.target.elts[0])},
+                  f"{rw}: both paths read the iterated file with {dict(sorted(ki)[0]) if ki else None}", f"{rw}: diff path and write path open files differently",
+                  f"diff: {sorted(kd)} on {sorted(pd_)}; write: {sorted(ki)} on {sorted(pi_)}", loc=d.loc())
         # (3) rfd_from_content(patterns, new_vinfo, content)
         def rfd_call(fn, loop: ast.For, vinfo_param: str) -> T.Tuple[bool, str]:
             cs = shapes.find_calls(prog, fn, f"{rw}.rfd_from_content")
@@ -130,7 +134,9 @@ def run(ctx) -> None:
                 return False, f"{len(cs)} calls"
             c = cs[0]
             args = [unparse(x) for x in c.args]
-            content_ok = len(c.args) >= 3 and shapes.flows_from(fn, c.args[2], lambda e: isinstance(e, ast.Call) and isinstance(e.func, ast.Attribute) and e.func.attr == "read")
+            fvar = unparse(loop.target.elts[0])
+            content_ok = len(c.args) >= 3 and (shapes.flows_from(fn, c.args[2], lambda e: isinstance(e, ast.Call) and isinstance(e.func, ast.Attribute) and e.func.attr == "read")
+                                               or shapes.flows_from(fn, c.args[2], lambda e: isinstance(e, ast.Call) and any(isinstance(x, ast.Name) and x.id == fvar for x in ast.walk(e))))
             return (len(args) >= 3 and args[0] == unparse(loop.target.elts[1]) and args[1] == vinfo_param and content_ok), unparse(c)
         okd, td = rfd_call(d, ld, d.params[1])
         oki, ti = rfd_call(it, li, it.params[1])
